@@ -25,6 +25,7 @@ func init() {
 			var out []string
 			need(m, &out, "decode_days_covered", 50457)
 			need(m, &out, "decodes_from_a_reused_buffer", 100000)
+			need(m, &out, "first_conversions_of_a_process", 16)
 			need(m, &out, "decode_times_of_day_covered", 86400)
 			need(m, &out, "encode_days_covered", 50457)
 			need(m, &out, "encode_times_of_day_covered", 86400)
@@ -82,6 +83,25 @@ func runC15(c *mon.Ctx) {
 		if err != nil || n != 5 || !bytes.Equal(got, want) {
 			c.Violate("C15/encode/wrong-bytes", stage, idx, fmt.Sprintf("time %v: library %x (n=%d err=%v), reference %x", t, got, n, err, want), map[string]any{"time": t.String()})
 		}
+	}
+	// stage first: the very first conversions a fresh process makes (each worker process starts here, with another date per worker):
+	// lazily initialised tables and "same as last time" memos start from their zero values, which may coincide with a real date
+	firstDays := []int{40587, 40588, 40586, mjdLo, mjdHi, 15385, 51544, 51545, 47892, 65534, 15080, 33282, 44239, 48988, 55197, 58849}
+	for k := int64(0); k < 64; k++ {
+		if !c.Mine("first", k) {
+			continue
+		}
+		d := firstDays[int(k)%len(firstDays)]
+		sec := []int{0, 86399, 1, 43200}[int(k/16)%4]
+		if k%2 == 0 {
+			encode("first", k, d, sec, 0)
+			decode("first", k, d, sec)
+		} else {
+			decode("first", k, d, sec)
+			encode("first", k, d, sec, 0)
+		}
+		c.Count("first_conversions_of_a_process")
+		break // one per worker process: later ones would not be first
 	}
 	sampleSecs := []int{0, 86399, 1, 59, 60, 3599, 3600, 35999, 36000, 43200, 72000, 79199, 79200, 86340, 9*3600 + 9*60 + 9, 10*3600 + 10*60 + 10,
 		19*3600 + 59*60 + 59, 20 * 3600, 23 * 3600, 12*3600 + 34*60 + 56, 7*3600 + 8*60 + 9, 86398, 600, 6000, 45296, 5025}
